@@ -111,7 +111,43 @@ Definition names_peer_if_at_change (t : topology cmac_key) (p : path) : bool :=
     | _, _, _ => false
     end) (xover_starts p).
 
-Definition verdict (c : ncase) : N :=
+(** one-hop cases ([c_lens] empty, one info field, two hop fields): model [sdk_onehop_sim]
+    against the implementation's trace; oracles: bounded (two steps), delivery only at the
+    destination, forwarding only over existing up links, and no over-acceptance with respect
+    to [ref_onehop].  Every oracle failure of a one-hop case belongs to the class of the open
+    finding C13-onehop-unchecked (bit 128). *)
+Definition case_onehop (c : ncase) : option ohpacket :=
+  match c_infos c, c_hops c with
+  | [I f s ts], [H f1 e1 i1 g1 m1; H f2 e2 i2 g2 m2] =>
+    Some (mkOh (c_dst c) (mkInfo (N.testbit f 1) (N.testbit f 0) s ts)
+               (mkHop (N.testbit f1 1) (N.testbit f1 0) e1 i1 g1 m1)
+               (mkHop (N.testbit f2 1) (N.testbit f2 0) e2 i2 g2 m2))
+  | _, _ => None
+  end.
+
+Definition verdict_onehop (c : ncase) : N :=
+  let t := case_topo c in
+  match case_onehop c with
+  | None => 1
+  | Some pk =>
+    let '(tr, e) := sdk_onehop_sim hop_mac 3 t (c_at c) (c_if c) pk in
+    let lines := map step_line tr in
+    let mend := match e with EndVerdict => 0 | EndError => 1 | EndFuel => 3 end in
+    let mismatch := negb (list_eqb tline_eqb lines (c_trace c)) || negb (mend =? c_end c) in
+    let itr := c_trace c in
+    let o1 := o_deliver_only_at (c_dst c) itr in
+    let o2 := (length itr <=? 2)%nat && (c_end c =? 0) in
+    let o3 := forallb (fun '(ia, _, cd, a) =>
+                 negb (cd =? 1) || match iface_state t ia a with Some (_, true) => true | _ => false end) itr in
+    let o4 := match delivered_at itr with
+              | Some ia => optN_eqb (rend_delivered (ref_onehop hop_mac t (c_now c) (c_at c) pk)) (Some ia)
+              | None => true
+              end in
+    (if mismatch then 1 else 0) + (if o1 && o2 && o3 && o4 then 0 else 128)
+    + (if o4 then 0 else 256) + (if o1 then 0 else 4096) + (if o2 then 0 else 8192) + (if o3 then 0 else 16384)
+  end.
+
+Definition verdict_std (c : ncase) : N :=
   let t := case_topo c in
   let pk := case_packet c in
   let p := k_path pk in
@@ -160,6 +196,7 @@ Definition verdict (c : ncase) : N :=
   + (if o4 then 0 else 256) + (if o5 then 0 else 512) + (if o6 then 0 else 1024) + (if o7 then 0 else 2048)
   + (if o1 then 0 else 4096) + (if o2 then 0 else 8192) + (if o3 then 0 else 16384).
 
+Definition verdict (c : ncase) : N := if is_nil (c_lens c) then verdict_onehop c else verdict_std c.
 Definition verdicts (cs : list ncase) : list N := map verdict cs.
 
 (** * C01: segments of the real control plane against the beacon model *)
